@@ -52,10 +52,12 @@ SPEC = {
                  "C02_oversized_length_allocates_nothing", "C02_oversized_count_bounded",
                  "C02_omap_total", "C02_typeutils_consumed_le",
                  "C02_stream_no_panic", "C02_stream_consumed_le", "C02_stream_alloc_linear", "C02_stream_iters_linear", "C02_stream_seek_no_panic", "C02_stream_bytesRead_le",
-                 "C02_json_no_panic", "C02_all",
+                 "C02_json_no_panic", "C02_json_text_no_panic", "C02_numbers_output_le", "C02_all",
                  "C02_facts_constants", "C02_facts_type_allowedGenericTypes", "C02_facts_body_ReadBytes", "C02_facts_body_ReadBytesWithSize", "C02_facts_body_ReadObject", "C02_facts_body_ReadObjectWithSize", "C02_facts_body_PeekSize", "C02_facts_body_ReadCollection",
                  "C02_facts_body_readFixedSize", "C02_facts_body_ByteReader_BytesRead", "C02_facts_body_Uint64FromBytes", "C02_facts_body_ByteArray32FromBytes", "C02_facts_body_Deserializer_readSliceLength", "C02_facts_body_Deserializer_ReadVariableByteSlice", "C02_facts_body_Deserializer_ReadString", "C02_facts_body_Deserializer_ReadBytes",
                  "C02_facts_body_Deserializer_ReadPayloadLength", "C02_facts_body_Deserializer_GetObjectType", "C02_facts_body_Deserializer_ReadSequenceOfObjects", "C02_facts_body_Deserializer_RemainingBytes", "C02_facts_body_Deserializer_Done", "C02_facts_body_Deserializer_Skip", "C02_facts_body_Deserializer_ReadTime", "C02_facts_body_Deserializer_ReadPayload",
+                 "C02_facts_body_DecodeHex", "C02_facts_body_DecodeUint256", "C02_facts_body_DecodeUint64",
+                 "C02_facts_json_no_unchecked_assertion", "C02_facts_json_unchecked_assertions", "C02_facts_json_assertions", "C02_facts_json_reflectValueOf",
                  "C02_skeleton_structFieldsCache_Get", "C02_skeleton_structFieldsCache_Set", "C02_skeleton_API_getStructFields",
                  "C02_skeleton_TypeSettingsRegistry_GetByType", "C02_skeleton_TypeSettingsRegistry_GetByValue",
                  "C02_skeleton_TypeSettingsRegistry_RegisterTypeSettings", "C02_skeleton_InterfacesRegistry_Get",
